@@ -255,7 +255,32 @@ def kauri_kernel_obligations():
                                                                         and r[3] == (("var", "X"),) and dict(r[4]).get("metric") == A("kernel"))
     for k in ("precomputed without a matrix is an error", "precomputed -> the user's matrix", "named -> pairwise_kernels(X, metric=self.kernel)"):
         obs.append(Ob(f"Kauri._compute_kernel: {k}", PROVED if cases.get(k) else REFUTED, "fx-dataflow", "P", {"cases": {a: bool(b) for a, b in cases.items()}}, fn=fn))
+    # the kernel is a function of (X, y) and of the constructor options only: nothing is cached on, or read back from, the estimator
+    import inspect
+    hp = set(inspect.signature(Kauri.__init__).parameters) - {"self"}
+    reads = {e[2] for st in sts for e in st.events if e[0] == "read" and e[1] == SELF and not callable(getattr(Kauri, e[2], None))}
+    writes = {e[2] for st in sts for e in st.events if e[0] == "store" and e[1] == SELF}
+    hidden = set()
+    for st in sts:
+        for c, _ in st.pc:
+            _self_names(c, hidden)
+    state = sorted((reads | hidden) - hp)
+    obs.append(Ob("Kauri._compute_kernel: stateless (writes nothing on the estimator, reads and tests only constructor options)",
+                  PROVED if sts and not writes and not state else REFUTED, "fx-frame", "P", {"writes": sorted(writes), "state read": state}, fn=fn))
     return obs
+
+
+def _self_names(t, acc):
+    """attributes of self a term mentions, also through getattr / hasattr with a constant name"""
+    if isinstance(t, tuple):
+        if t[:1] == ("attr",) and len(t) == 3 and t[1] == SELF and isinstance(t[2], str):
+            acc.add(t[2])
+        if t[:1] == ("callres",) and len(t) >= 4 and t[2] in ("getattr", "hasattr") and t[3] and t[3][0] == SELF and len(t[3]) > 1:
+            x = t[3][1]
+            acc.add(str(x[1]) if isinstance(x, tuple) and len(x) > 1 else str(x))
+        for x in t:
+            _self_names(x, acc)
+    return acc
 
 
 def read_set_obligations():
